@@ -4,7 +4,7 @@ From Coq Require Import String Ascii ZArith QArith Bool Arith Lia List.
 From GT Require Import Base.UTree Spec.Obs Spec.Parsimony Model.Reroot Model.Parsimony
      Proofs.ParsimonyVec Proofs.ParsimonyHartigan Proofs.ParsimonyReroot Proofs.ParsimonyMain
      Proofs.ParsimonyCtx Proofs.ParsimonyDown Proofs.ParsimonyFinal Proofs.ParsimonyAcctran
-     Proofs.ParsimonyTips Proofs.ParsimonyUnamb.
+     Proofs.ParsimonyTips Proofs.ParsimonyUnamb Proofs.ParsimonyDeltran.
 Import ListNotations.
 Local Close Scope Q_scope.
 
@@ -96,6 +96,10 @@ Theorem acr_downpass_unambiguous :
   vall single (acr_vt Downpass) -> optimal (acr_ts m) t (lab_of t (acr_vt Downpass)).
 Proof. apply (downpass_unambiguous acr_tv (acr_ts m) acr_k t Hwf Hdeg acr_tips). Qed.
 
+Theorem acr_deltran_unambiguous :
+  vall single (acr_vt Deltran) -> optimal (acr_ts m) t (lab_of t (acr_vt Deltran)).
+Proof. apply (deltran_unambiguous acr_tv (acr_ts m) acr_k t Hwf Hdeg acr_tips). Qed.
+
 End Acr.
 
 (** * sequence variant *)
@@ -133,15 +137,22 @@ Qed.
 
 Lemma nt_vec_good : forall c, good 6 (nt_vec c).
 Proof.
-  intros c. split; [reflexivity|]. intros x. unfold nt_vec.
-  do 7 (destruct x as [|x]; [simpl; destruct (existsb _ _); lia|]). simpl. lia.
+  intros c. split; [reflexivity|]. intros x. unfold nt_vec, nt_alphabet.
+  do 6 (destruct x as [|x];
+        [simpl; match goal with |- context [if ?b then _ else _] => destruct b end; lia|]).
+  simpl. destruct x; lia.
+Qed.
+
+Lemma vzero6_good : good 6 (vzero 6).
+Proof.
+  split; [reflexivity|]. intros x. do 6 (destruct x as [|x]; [simpl; lia|]). simpl. destruct x; lia.
 Qed.
 
 Lemma asr_tipvec_good : forall aln j n, good 6 (asr_tipvec aln j n).
 Proof.
   intros. unfold asr_tipvec.
-  destruct (lookup n aln) as [s|]; [destruct (string_nth j s)|]; try apply nt_vec_good;
-    (split; [reflexivity|]; intros x; do 7 (destruct x as [|x]; [simpl; lia|]); simpl; lia).
+  destruct (lookup n aln) as [s|]; [destruct (string_nth j s)|];
+    first [apply nt_vec_good | apply vzero6_good].
 Qed.
 
 Section Asr.
@@ -222,9 +233,9 @@ Example acctran_rewriting_tips_keeps_ambiguous_tip_refuted :
     vec_at t (fst (parsimony false tv 6 Acctran t)) q = Some v /\ v <> tv (uname x).
 Proof.
   exists witness_tree, witness_tv, [0], (UNode "a" [] [None]), [1; 0; 0; 0; 0; 0].
-  repeat split; try (vm_compute; auto; fail).
-  - vm_compute. lia.
-  - vm_compute. discriminate.
+  split; [reflexivity|]. split; [unfold degree; simpl; lia|].
+  split; [reflexivity|]. split; [reflexivity|]. split; [vm_compute; reflexivity|].
+  vm_compute. discriminate.
 Qed.
 
 (** with the tips skipped (the fixed sequence variant) the same input keeps its tip *)
